@@ -15,7 +15,6 @@
 
 """Implements Fiddle's build() function."""
 
-import contextlib
 import functools
 import logging
 import threading
@@ -39,17 +38,29 @@ class _BuildGuardState(threading.local):
 _state = _BuildGuardState()
 
 
-@contextlib.contextmanager
-def _in_build():
-  """A context manager to ensure fdl.build is not called recursively."""
-  if _state.in_build:
-    raise ValueError(
-        'It is forbidden to call `fdl.build` inside another `fdl.build` call.')
-  _state.in_build = True
-  try:
-    yield
-  finally:
+class _InBuild:
+  """A context manager to ensure fdl.build is not called recursively.
+
+  This is a class rather than a generator-based `contextlib.contextmanager`,
+  which assigns `exc.__traceback__` on the exception passing through it; that
+  fails (and replaces the original exception) for exception classes whose
+  instances do not allow attribute assignment.
+  """
+
+  def __enter__(self):
+    if _state.in_build:
+      raise ValueError(
+          'It is forbidden to call `fdl.build` inside another `fdl.build` call.'
+      )
+    _state.in_build = True
+
+  def __exit__(self, exc_type, exc, traceback):
     _state.in_build = False
+    return False
+
+
+def _in_build():
+  return _InBuild()
 
 
 def _format_arg(arg: Any) -> str:
